@@ -86,6 +86,7 @@ fn main() {
         args,
         start: std::time::Instant::now(),
     };
+    let _ = report::OWN_PROP.set(ctx.prop.clone());
     report::quiet_panics();
     let code = match which.to_uppercase().as_str() {
         "SELFTEST" => selftest::run(&ctx),
